@@ -262,6 +262,22 @@ Fixpoint replace_rounds (n : nat) (ms : list macro) (orig res : string) : string
 
 Definition replace_all (ms : list macro) (s : string) : string := replace_rounds 64 ms s s.
 
+(** what [Context::replace_all] really runs: the same rounds, abandoned as soon as the text has
+    grown past 64 KiB (a macro mentioning itself twice doubles the text at every round).
+    [replace_all] above is the uncapped function the theorems are about; the two agree whenever no
+    intermediate text exceeds the cap (Proofs/MacroFacts.v, [replace_all_c_small]). *)
+Definition within_cap (s : string) : bool := (N.of_nat (String.length s) <=? 65536)%N.
+
+Fixpoint replace_rounds_c (n : nat) (ms : list macro) (orig res : string) : string :=
+  match n with
+  | O => res
+  | S k =>
+      let '(res', c) := apply_all ms orig res false in
+      if c then (if within_cap res' then replace_rounds_c k ms res' res' else res') else res'
+  end.
+
+Definition replace_all_c (ms : list macro) (s : string) : string := replace_rounds_c 64 ms s s.
+
 Fixpoint get_macro (ms : list macro) (n : string) : option macro_kind :=
   match ms with
   | [] => None
@@ -648,7 +664,7 @@ Definition line_step (rec : string -> option (string * N) -> bool -> list string
                   match get_macro ms name with
                   | Some _ => err ESyntax fname line inc ("Macro " ++ name ++ " already defined")
                   | None =>
-                      let value := replace_all ms body in
+                      let value := replace_all_c ms body in
                       let m := match params with
                                | None => (name, MObj value)
                                | Some ps => (name, MFun ps (templatize ps value))
@@ -659,7 +675,7 @@ Definition line_step (rec : string -> option (string * N) -> bool -> list string
           end
         else POk p
       else
-        let new_line := replace_all ms out in
+        let new_line := replace_all_c ms out in
         let substr := trim new_line in
         if starts_with "#" substr then
           let '(name, arg) := directive_parts substr in
